@@ -235,3 +235,32 @@ def self_check_optional_number() -> bool:
 
     hits = optional_number_truthiness(_Repo(), fis["f"])
     return {h[0] for h in hits} == {"parsed", "coefficient"}
+
+
+# ----------------------------------------------------------------------------- one-sided tests on a signed part
+def one_sided_signed_part_tests(repo: Repo, module_names) -> List[Tuple[FuncInfo, ast.AST]]:
+    """Tests of the form ``x.imag > tol`` / ``np.any(a.imag > tol)`` (tolerance >= 0) that are not mirrored for the
+    other sign and not wrapped in abs()/isclose(): a decision meant to be "is this part negligible?" that treats
+    every negative value as negligible (Engler-style one-sided comparison)."""
+    from .props.c16 import sidedness
+
+    def is_part(e: ast.AST) -> bool:
+        return isinstance(e, ast.Attribute) and e.attr in ("imag",) or (isinstance(e, ast.Call) and (dotted(e.func) or "").split(".")[-1] in ("imag",))
+
+    out: List[Tuple[FuncInfo, ast.AST]] = []
+    for mn in module_names:
+        if mn not in repo.modules:
+            continue
+        for fi in repo.module(mn).functions.values():
+            tests: List[ast.AST] = []
+            for n in body_walk(fi.node):
+                if isinstance(n, (ast.If, ast.IfExp, ast.While, ast.Assert)):
+                    tests.append(n.test)
+                elif isinstance(n, ast.comprehension):
+                    tests.extend(n.ifs)
+            for t in tests:
+                if not any(is_part(x) for x in ast.walk(t)):
+                    continue
+                if sidedness(t, is_part) == "one":
+                    out.append((fi, t))
+    return out
